@@ -309,6 +309,13 @@ FLAG_PROGRAMS = {
     "sort-lambda-argument-via-loop-item": [["list", [[["list", [[_n(3)], [_n(1)], [_n(2)]]]]]], ["for", None, [["el", "n"], ["srt", []], ["el", "_"], ["el", "n"]]]],
     "map-lambda-argument-via-variable": [["list", [[_n(3)], [_n(1)]]], ["set", "x"], ["get", "x"], ["map", [["el", "d"]]], ["el", "_"], ["get", "x"]],
     "filter-lambda-argument-via-dup": [["list", [[_n(3)], [_n(0)], [_n(2)]]], ["el", ":"], ["flt", []], ["el", "_"]],
+    # a lazy map / filter result is TESTED (one item forced) and later printed: the printed text is that of the whole list
+    "lazy-result-tested-by-if-then-printed": [["list", [[_n(1)], [_n(2)], [_n(3)]]], ["map", [_n(1), ["el", "+"]]], ["set", "x"], ["get", "x"],
+                                              ["if", [[_n(1)], [_n(2)]]], ["el", "_"], ["get", "x"]],
+    "lazy-result-tested-in-loop-then-printed": [["list", [[_n(1)], [_n(2)], [_n(3)]]], ["map", [["el", "d"]]], ["set", "x"], _n(2),
+                                                ["for", None, [["get", "x"], ["if", [[["get", "x"], ["el", ","]]]]]]],
+    "lazy-filter-tested-by-while-then-printed": [["list", [[_n(1)], [_n(2)], [_n(3)], [_n(4)]]], ["flt", [["el", "∷"]]], ["set", "x"], _n(1),
+                                                 ["while", [["get", "x"]], [["brk"]]], ["el", "_"], ["get", "x"]],
     "while-cond-n-in-map": [_n(3), ["map", [_n(0), ["while", [["el", ":"], ["el", "n"], ["el", "<"]], [["el", "›"]]]]]],
 }
 
